@@ -14,7 +14,8 @@ Definition code_fixed_F06 := false.   (* proposed_fixes/C07-F06.diff *)
 Definition code_fixed_F07 := false.   (* proposed_fixes/C07-F07.diff *)
 Definition code_fixed_F08 := false.   (* proposed_fixes/C07-F08.diff *)
 Definition code_fixed_N1 := false.    (* proposed_fixes/C06-N1.diff *)
-Definition code_fixes : fixes := mkFx code_fixed_F06 code_fixed_F07 code_fixed_F08 code_fixed_N1.
+Definition code_fixed_N2 := false.    (* proposed_fixes/C06-N2.diff *)
+Definition code_fixes : fixes := mkFx code_fixed_F06 code_fixed_F07 code_fixed_F08 code_fixed_N1 code_fixed_N2.
 
 Notation zserver := (server Z).
 Notation zroster := (roster Z).
@@ -121,7 +122,8 @@ Definition pair_eqb (a b : nat * nat) : bool := (fst a =? fst b) && (snd a =? sn
 
 (* ---- model vs observation ------------------------------------------------------------ *)
 
-Definition zmake := make_tree Z.add.
+Definition zmake := make_tree Z.add code_fixed_F06 code_fixed_N2.
+Definition zfrom_bytes := from_bytes Z.add code_fixed_F06 code_fixed_N2.
 
 Definition goeq_model (s t : ztree) : bool :=
   match go_tree_equal s t with Ok b => b | _ => false end.
@@ -145,7 +147,7 @@ Definition dec_tm (d : dec tmarshal) (k : option tmarshal -> res ztree) : res zt
 
 (* what a server that asked the holder of [t] for it ends up with *)
 Definition learn (t : ztree) : option ztree :=
-  match zmake code_fixed_F06 (to_marshal t) (t_ro t) with
+  match zmake (to_marshal t) (t_ro t) with
   | Ok t' => Some t'
   | _ => None
   end.
@@ -194,15 +196,15 @@ Definition agree (c : case) : bool :=
   match c with
   | CRound t ro tm direct bytes binary =>
       tm_eqb (to_marshal t) tm &&
-      res_agrees (Some t) (zmake code_fixed_F06 tm ro) direct &&
-      res_agrees (Some t) (from_bytes Z.add code_fixed_F06 (Some tm) ro) bytes &&
-      res_agrees (Some t) (binary_unmarshal Z.add code_fixed_F06 (Some (Some tm, t_ro t))) binary
-  | CMake tm ro obs => res_agrees None (zmake code_fixed_F06 tm ro) obs
-  | CBytes d ro obs => res_agrees None (dec_tm d (fun m => from_bytes Z.add code_fixed_F06 m ro)) obs
+      res_agrees (Some t) (zmake tm ro) direct &&
+      res_agrees (Some t) (zfrom_bytes (Some tm) ro) bytes &&
+      res_agrees (Some t) (binary_unmarshal Z.add code_fixed_F06 code_fixed_N2 (Some (Some tm, t_ro t))) binary
+  | CMake tm ro obs => res_agrees None (zmake tm ro) obs
+  | CBytes d ro obs => res_agrees None (dec_tm d (fun m => zfrom_bytes m ro)) obs
   | CBinary d obs =>
       res_agrees None
         (match d with
-         | DSome (inner, oro) => dec_tm inner (fun m => from_bytes Z.add code_fixed_F06 m oro)
+         | DSome (inner, oro) => dec_tm inner (fun m => zfrom_bytes m oro)
          | DNone => Err
          | DCrash => Crash
          end) obs
@@ -368,7 +370,12 @@ Definition check (c : case) : list nat :=
          clause 1 ((negb own || (same_tree t direct && same_tree t bytes)) && same_tree t binary)
        else []) ++
       (if own && sender_wf t then [] else
-         check_make (Some tm) ro direct ++ check_make (Some tm) ro bytes)
+         check_make (Some tm) ro direct ++ check_make (Some tm) ro bytes) ++
+      (* a serialised form that lacks its roster must be refused, not dereferenced *)
+      match t_ro t with
+      | None => clause 2 (match binary with RErr => true | _ => false end)
+      | Some _ => []
+      end
   | CMake tm ro obs => check_make (Some tm) ro obs
   | CBytes d ro obs =>
       match d with
